@@ -31,7 +31,34 @@ def check(chk, thorough=False):
     chk.run('C10.r', 'R-ORDER', 'the block index the bundle identity is computed from exists before it is read (built at construction, or asked for by every reader)', lambda ob: c10r(tree, ob), floor=1)
     chk.run('C10.s', 'R-GUARD', 'the administrative routing step claims a bundle by its destination alone (= C06.p)', lambda ob: admin_route_by_destination_only(tree, ob), floor=1)
     chk.run('C10.t', 'R-TRUTH', 'destinations, sources and route patterns are compared as written: no case folding in the route configuration or in the endpoint ID field', lambda ob: c10t(tree, ob), floor=1)
+    chk.run('C10.u', 'R-TRUTH', 'an application claims only the endpoint it was configured with: no endpoint is derived for a node whose configuration names none (a derived one claims bundles ahead of the route table)', lambda ob: c10u(tree, ob), floor=2)
     chk.run('C10.e', 'R-WHO', 'actions are recorded only through record_action (two sanctioned direct edits)', lambda ob: c10e(tree, ob), floor=3)
+
+
+def c10u(tree, ob):
+    ''' the routing steps of the applications (order below static routing) claim a bundle whose destination equals the
+    application's own endpoint.  That endpoint is the configured one or None (= claims nothing); one made up from the node
+    ID takes bundles for <node>/<app> away from the route the table has for them. '''
+    n = 0
+    for (rel, mod) in sorted(tree.modules.items()):
+        if not rel.startswith('bp/app/'):
+            continue
+        for (r, qual, func) in tree.all_functions([rel]):
+            for st in walk_local(func):
+                if not isinstance(st, ast.Assign):
+                    continue
+                for t in st.targets:
+                    if not (isinstance(t, ast.Attribute) and t.attr == 'own_eid'):
+                        continue
+                    n += 1
+                    fv = FuncView(tree, rel, qual)
+                    val = fv.value_at(st.value, st, depth=3)
+                    if (isinstance(val, ast.Constant) and val.value is None) or pm("$c.get('endpoint')", val) is not None or pm("$c['endpoint']", val) is not None:
+                        ob.site(rel, st, qual + ': own endpoint is the configured one (or none)')
+                    else:
+                        ob.violate(rel, qual, src(st)[:80], 'the endpoint the application claims is not the configured value as read (derived from the node ID, defaulted or rewritten): on a node that '
+                                   'configures none the routing step of the application, which runs before static routing, claims bundles the route table forwards or delivers elsewhere', st)
+    ob.require(n >= 2, 'own_eid stores in bp/app: {}'.format(n))
 
 
 def c10a(tree, ob):
